@@ -1713,4 +1713,110 @@ Proof.
   - apply (PAX_info n _ _ (over_children drop_recipes s5)); [reflexivity|]. unfold over_children.
     apply PAX_over_children; [|exact P5]. intros i. cbn. auto.
 Qed.
+
+(* ======================================================================== *)
+(* Part 6 : every primitive preserves  InvC /\ (A)                           *)
+Definition QA (s : tstate) : Prop := InvC n s /\ PAe n s.
+(* the only extra precondition: legs supplied for the ROOT (annealing never does, since fix
+   88a452f) must carry the declared output order *)
+Definition pairA_pre (s : tstate) (x y : node) (lg : option legs) : Prop :=
+  forall l, lg = Some l -> length (nunion x y) = N -> lkeys l = lkeys (root_legs n (sliced s)).
+Definition primA_pre (p : prim) (s : tstate) : Prop :=
+  prim_pre n p s /\ match p with PPair x y lg _ _ => pairA_pre s x y lg | _ => True end.
+
+Lemma legs_ok_keys_same sl0 nd a b : legs_ok n sl0 nd a -> legs_ok n sl0 nd b -> forall j, In j (lkeys a) <-> In j (lkeys b).
+Proof.
+  unfold legs_ok. destruct (Nat.eqb (length nd) N).
+  - intros [_ Ha] [_ Hb] j. rewrite <- !lget_in_keys, Ha, Hb. tauto.
+  - intros [Wa Ha] [Wb Hb]. apply wfl_keys_same; try assumption. intros j. rewrite Ha, Hb. reflexivity.
+Qed.
+Lemma PAe_crel' s s' : InvC n s -> PAe n s -> (chok (children s) -> crel n s s') -> PAe n s'.
+Proof. intros HI HP H. apply (PAe_crel n s s' HP), H, InvC_chok, HI. Qed.
+Lemma PAe_info s s' : info s' = info s -> sliced s' = sliced s -> err s' = err s -> PAe n s -> PAe n s'.
+Proof. intros E1 E2 E3 HP He. unfold PA. rewrite E2. apply (PAX_info n _ _ s s' E1). apply HP. congruence. Qed.
+
+Lemma contract_pair_facts x y lg c z s : chok (children s) -> x <> [] -> y <> [] -> NoDup (x ++ y) ->
+  sliced (contract_pair n x y lg c z s) = sliced s /\ chok (children (contract_pair n x y lg c z s)) /\
+  (err s = true -> err (contract_pair n x y lg c z s) = true).
+Proof.
+  intros Hc Hx Hy ND. rewrite contract_pair_eq. destruct (cp_pre_fields x y lg c z s) as (F1&F2&F3).
+  set (s5 := cp_pre x y lg c z s) in *.
+  assert (Hc5 : chok (children s5)) by (rewrite F1; apply chok_pair; assumption).
+  destruct (update_tracked_crel n HN (nunion x y) s5 Hc5) as (_&E2&E3&E4).
+  split; [congruence|]. split; [rewrite E2; exact Hc5|auto].
+Qed.
+
+Theorem step_preserves_PAe p s : InvC n s -> PAe n s -> primA_pre p s -> PAe n (step n p s).
+Proof.
+  intros HI HP [Hp Hx]. pose proof (InvC_chok s HI) as Hc.
+  destruct p as [nd|nd|x y lg c z|g nd|f| | | | | |pr a b c|ind pj|ind| |k]; cbn [step].
+  - (* _add_node *)
+    intros He. destruct (add_node_fields nd s) as (_&E2&E3). unfold PA. rewrite E2. apply PAX_add_node. apply HP. congruence.
+  - (* _remove_node *)
+    intros He. destruct (remove_node_facts n HN nd s Hc) as (E1&_&E3).
+    assert (He0 : err s = false) by (destruct (err s); [rewrite E3 in He by reflexivity; discriminate|reflexivity]).
+    unfold PA. rewrite E1. apply (PAX_remove_node n HN); [exact Hc|apply HI|auto|apply HP, He0].
+  - (* contract_nodes_pair *)
+    cbn [prim_pre prim_preN prim_pre1 prim_pre0] in Hp. destruct Hp as (Gx&Gy&HR&Hnone&Hlg&_).
+    assert (Hx0 : x <> []) by apply Gx. assert (Hy0 : y <> []) by apply Gy. assert (NDxy : NoDup (x ++ y)) by apply HR.
+    destruct (contract_pair_facts x y lg c z s Hc Hx0 Hy0 NDxy) as (C2&_&C4).
+    intros He. assert (He0 : err s = false) by (destruct (err s); [rewrite C4 in He by reflexivity; discriminate|reflexivity]).
+    pose proof (HP He0) as PA0. unfold PA. rewrite C2.
+    apply (PAX_contract_pair n HN _ noX x y lg c z s Hc Hx0 Hy0 NDxy); [auto|exact PA0|].
+    intros l El. pose proof (Permutation_length (nunion_perm' x y NDxy)) as Lp. rewrite app_length in Lp.
+    assert (Lx : 1 <= length x) by (destruct x; [congruence|cbn; lia]).
+    assert (Ly : 1 <= length y) by (destruct y; [congruence|cbn; lia]).
+    split.
+    + split; [intros E1; lia|]. intros EN. apply (Hx l El EN).
+    + intros i lg0 v Hi El0. unfold enum_ok, is_lr.
+      assert (E1 : (length (nunion x y) =? 1) = false) by (apply Nat.eqb_neq; lia). rewrite E1. cbn [orb].
+      destruct (Nat.eqb_spec (length (nunion x y)) N) as [EN|EN].
+      * intros ->. destruct (PA0 _ i Hi) as [A1 _]. destruct (A1 lg0 El0) as [_ B2]. rewrite (B2 EN). symmetry. apply (Hx l El EN).
+      * intros [NDv Hv]. split; [exact NDv|]. intros j. rewrite Hv.
+        destruct HI as [(_&_&H3&_) _]. destruct (H3 _ i Hi) as [_ (B&_)].
+        apply (legs_ok_keys_same (sliced s) (nunion x y)); [apply B, El0|apply Hlg, El].
+  - (* getters *)
+    cbn [prim_pre prim_preN prim_pre1 prim_pre0] in Hp.
+    destruct g; cbn [do_get].
+    + apply (PAe_crel' s); [exact HI|exact HP|apply g_legs_crel, HN].
+    + apply (PAe_crel' s); [exact HI|exact HP|apply g_involved_crel, HN].
+    + apply (PAe_crel' s); [exact HI|exact HP|apply g_size_crel, HN].
+    + apply (PAe_crel' s); [exact HI|exact HP|apply g_flops_crel, HN].
+    + apply g_can_dot_A; assumption.
+    + apply g_inds_A; assumption.
+    + apply g_tdaxes_A; assumption.
+    + apply g_tdperm_A; assumption.
+    + apply g_eq_A; assumption.
+  - apply (PAe_crel' s); [exact HI|exact HP|apply contract_stats_crel, HN].
+  - apply (PAe_crel' s); [exact HI|exact HP|apply total_flops_crel, HN].
+  - apply (PAe_crel' s); [exact HI|exact HP|apply total_write_crel, HN].
+  - apply (PAe_crel' s); [exact HI|exact HP|apply max_size_crel, HN].
+  - apply PAe_reset_inds, HP.
+  - apply PAe_reset_recipes, HP.
+  - apply sort_inds_A; assumption.
+  - apply remove_ind_A; assumption.
+  - apply restore_ind_A; assumption.
+  - apply (PAe_info s); auto.
+  - destruct (memb k (cores s)); [exact HP|apply (PAe_info s); auto].
+Qed.
+Theorem step_preserves_QA p s : QA s -> primA_pre p s -> QA (step n p s).
+Proof.
+  intros [HI HP] Hp. split; [apply (step_preserves_InvC n HN Hout p s HI), Hp|apply step_preserves_PAe; assumption].
+Qed.
+Fixpoint preA_trace (tr : list prim) (s : tstate) : Prop :=
+  match tr with [] => True | p :: tr' => primA_pre p s /\ preA_trace tr' (step n p s) end.
+Theorem run_preserves_QA tr : forall s, QA s -> preA_trace tr s -> QA (run n tr s).
+Proof.
+  induction tr as [|p tr IH]; intros s HQ Hp; [exact HQ|]. destruct Hp as [H1 H2]. cbn [run fold_left].
+  apply (IH (step n p s)); [apply step_preserves_QA; assumption|exact H2].
+Qed.
+Lemma init_state_PA : PA n (init_state n).
+Proof.
+  intros nd i Hi. apply nget_In in Hi. cbn [init_state info] in Hi. apply in_app_iff in Hi.
+  assert (Ei : i = noinfo).
+  { destruct Hi as [Hi|[Hi|[]]]; [|congruence]. apply in_map_iff in Hi. destruct Hi as (j & Hj & _). congruence. }
+  subst i. apply entA_noinfo.
+Qed.
+Theorem init_state_QA : QA (init_state n).
+Proof. split; [apply (init_state_InvC n HN)|intros _; apply init_state_PA]. Qed.
 End InvA2.
